@@ -213,8 +213,74 @@ fn process_part(res: &mut PartResult, racers: usize) {
     res.sample(json!({"racers": racers, "winner": w}));
 }
 
+/// The recorder's TYPE is an input too: the crate's own `NoopRecorder` (installed to switch metrics off for good), a
+/// boxed recorder, a plain one. For an ordered pair of kinds: the first installation succeeds, the second fails and hands
+/// its recorder back (undropped), a third one as well, and every emission afterwards reaches the first recorder (or
+/// nobody, if that is the no-op recorder) and never a later one. One pair per process.
+fn kinds_part(res: &mut PartResult, first: usize, second: usize) {
+    res.engine = "process history on the real global cell: recorder kinds x installation order".into();
+    res.executions = 1;
+    res.states = 1;
+    res.distinct_outcomes = 1;
+    let hits: Arc<Vec<AtomicUsize>> = Arc::new((0..3).map(|_| AtomicUsize::new(0)).collect());
+    let drops: Arc<Vec<AtomicUsize>> = Arc::new((0..3).map(|_| AtomicUsize::new(0)).collect());
+    let names = ["a plain recorder", "metrics::NoopRecorder", "a Box<dyn Recorder>"];
+    // returns Ok(()) / Err(()) and, for the doubles, checks the rejected recorder came back intact and undropped
+    let install = |kind: usize, id: usize, res: &mut PartResult| -> bool {
+        let mk = || D { id, magic: 0xabc0 + id as u64, hits: hits.clone(), drops: drops.clone() };
+        match kind {
+            0 => match metrics::set_global_recorder(mk()) {
+                Ok(()) => true,
+                Err(e) => {
+                    let back = e.into_inner();
+                    if back.magic != 0xabc0 + id as u64 || drops[id].load(Ordering::SeqCst) != 0 {
+                        res.violation("rejected-recorder-not-intact", format!("installation #{} ({}) was rejected but its recorder did not come back intact and undropped", id, names[kind]), json!({"kinds": [first, second]}));
+                    }
+                    false
+                }
+            },
+            1 => metrics::set_global_recorder(metrics::NoopRecorder).is_ok(),
+            _ => {
+                let b: Box<dyn Recorder + Send + Sync> = Box::new(mk());
+                match metrics::set_global_recorder(b) {
+                    Ok(()) => true,
+                    Err(e) => {
+                        drop(e);
+                        false
+                    }
+                }
+            }
+        }
+    };
+    let cfg = json!({"kinds": [first, second]});
+    let r0 = install(first, 0, res);
+    metrics::describe_counter!("after_first", "x");
+    let r1 = install(second, 1, res);
+    metrics::describe_counter!("after_second", "x");
+    let r2 = install(0, 2, res);
+    metrics::describe_counter!("after_third", "x");
+    let t = {
+        std::thread::spawn(|| metrics::describe_counter!("other_thread", "x")).join()
+    };
+    let _ = t;
+    res.transitions = 7;
+    let h: Vec<usize> = hits.iter().map(|x| x.load(Ordering::SeqCst)).collect();
+    if !r0 || r1 || r2 {
+        res.violation("install-not-exactly-once", format!("installing {} first, then {}, then a plain recorder: the three installations reported {:?} (expected the first to succeed and the others to be rejected)", names[first], names[second], [r0, r1, r2]), cfg.clone());
+    }
+    let want0 = if first == 1 { 0 } else { 4 };
+    if h[0] != want0 || h[1] != 0 || h[2] != 0 {
+        let sig = if h[1] != 0 || h[2] != 0 { "emission-reached-losing-recorder" } else { "emission-lost-after-install" };
+        res.violation(sig, format!("installing {} first, then {}, then a plain recorder, with one emission after each and one on another thread: the recorders saw {:?} emissions (expected [{}, 0, 0])", names[first], names[second], h, want0), cfg.clone());
+    }
+    res.sample(json!({"first": names[first], "second": names[second], "expected": "Ok, Err, Err; emissions only ever reach the first"}));
+}
+
 fn parts(ctx: &Ctx) -> Vec<PartSpec> {
     let mut v = vec![PartSpec::new("process-2", json!({"racers": 2})), PartSpec::new("process-4", json!({"racers": 4}))];
+    for (a, b) in [(1, 0), (0, 1), (1, 1), (2, 1), (1, 2), (2, 0)] {
+        v.push(PartSpec::new(&format!("process-kinds-{}-then-{}", ["plain", "noop", "boxed"][a], ["plain", "noop", "boxed"][b]), json!({"kinds": [a, b]})));
+    }
     let l = |s: &str, pb: Option<u64>| PartSpec::new(&format!("loom-{}-pb{}", s, pb.map(|p| p.to_string()).unwrap_or("inf".into())), json!({"loom": s, "pb": pb}));
     if ctx.quick() {
         v.extend([l("cell_2i1r", Some(3)), l("cell_1i2r_handoff", Some(3)), l("cell_3i1r", Some(2)), l("cell_2i2r", Some(2))]);
@@ -228,6 +294,8 @@ fn run(ctx: &Ctx, spec: &PartSpec) -> PartResult {
     let mut res = PartResult::new(&spec.name, "E2");
     if let Some(s) = spec.arg["loom"].as_str() {
         vcore::loompart::run_with_budget(s, spec.arg["pb"].as_u64(), ctx.budget_s, &mut res);
+    } else if let Some(k) = spec.arg["kinds"].as_array() {
+        kinds_part(&mut res, k[0].as_u64().unwrap() as usize, k[1].as_u64().unwrap() as usize);
     } else {
         process_part(&mut res, spec.arg["racers"].as_u64().unwrap_or(2) as usize);
     }
@@ -238,7 +306,7 @@ fn main() {
     driver::main(CheckDef {
         prop: "C02",
         level: "model_checking",
-        rule: "loom explores every execution (C11 memory model incl. acquire/release and UnsafeCell access ordering) of N installers racing set() with readers doing try_load()+dispatch on a fresh RecorderOnceCell compiled from /repo/metrics/src/recorder/cell.rs, up to the stated preemption bound (none = unbounded); plus one history per run on the real process-global cell (2 / 4 racing installers; seven bystander threads that emitted before, sit inside with_local_recorder, hold a local-recorder guard, have left a local scope (normally or by a caught panic, before or after), or did nothing when the installation happens, and afterwards emit outside any scope: all must reach the installed recorder; an emission made by the installed recorder itself from inside a callback reaches it too); distinct = distinct (winner, reader observation) outcomes",
+        rule: "loom explores every execution (C11 memory model incl. acquire/release and UnsafeCell access ordering) of N installers racing set() with readers doing try_load()+dispatch on a fresh RecorderOnceCell compiled from /repo/metrics/src/recorder/cell.rs, up to the stated preemption bound (none = unbounded); plus one history per run on the real process-global cell (2 / 4 racing installers; seven bystander threads that emitted before, sit inside with_local_recorder, hold a local-recorder guard, have left a local scope (normally or by a caught panic, before or after), or did nothing when the installation happens, and afterwards emit outside any scope: all must reach the installed recorder; an emission made by the installed recorder itself from inside a callback reaches it too); distinct = distinct (winner, reader observation) outcomes; per ordered pair of recorder kinds from {plain, the crate's NoopRecorder, Box<dyn Recorder>} one process: first installation succeeds, second and third are rejected and hand their recorder back, emissions only ever reach the first",
         assumptions: &["loom's model of the C11 memory model", "the path-included cell.rs is the file the metrics crate compiles (same source file, loom types substituted by the cfg(metrics_verif_loom) import twin)", "set_global_recorder/with_recorder wrap the cell without further synchronisation (checked by the process-level part)"],
         parts,
         run,
